@@ -32,6 +32,7 @@ fn main() {
     util::write_if_changed(&out.join("Consts.lean"), &consts);
     util::write_if_changed(&out.join("Arith.lean"), &arith_txt);
     util::write_if_changed(&out.join("Api.lean"), &api::generate(&files, &mut report));
+    api::API_JSON.with(|j| util::write_if_changed(&out.join("api.json"), &j.borrow()));
     util::write_if_changed(&out.join("Guards.lean"), &guards::generate(&files, &mut report));
     util::write_if_changed(&out.join("Atomics.lean"), &atomics::generate(&files, &mut report));
     util::write_if_changed(&out.join("Serde.lean"), &serde_policy::generate(&files, &mut report));
